@@ -1,4 +1,70 @@
-(** Harness glue for C01 (stub: no families yet). *)
-From Coq Require Import List String.
-From KV Require Import Glue.Val.
-Definition c01_run (fam : string) (args : list val) : option string := None.
+(** Harness glue for C01: for every string a function returns — where it sits in the argument,
+    whether it is valid UTF-8, whether it starts and ends on char boundaries. *)
+From Coq Require Import List ZArith Bool String.
+From KV Require Import Base.Prelude Model.Utf8 Spec.Utf8 Model.Search Model.Trim Model.Parser Glue.Val Glue.C13.
+Import ListNotations.
+Local Open Scope string_scope.
+
+(** [off:len|<utf8><boundary at start><boundary at end>] *)
+Definition facts_at (h : list Z) (off : Z) (r : list Z) : string :=
+  let bs := match r with [] => true | _ => is_char_boundary_m h off end in
+  let be := match r with [] => true | _ => is_char_boundary_m h (off + zlen r) end in
+  show_view off (zlen r) ++ "|" ++ show_bool (utf8 r) ++ show_bool bs ++ show_bool be.
+
+Definition facts_suffix (h : list Z) (o : option (list Z)) : string :=
+  match o with None => "N" | Some r => facts_at h (zlen h - zlen r) r end.
+Definition facts_prefix (h : list Z) (o : option (list Z)) : string :=
+  match o with None => "N" | Some r => facts_at h 0 r end.
+
+Definition c01_pat (h n : list Z) : string :=
+  let ts := unwrap_trim (trim_start_matches_m h n) h in
+  show_fields
+    [("find_skip", facts_suffix h (find_skip_m h n));
+     ("find_keep", facts_suffix h (find_keep_m h n));
+     ("rfind_skip", facts_prefix h (rfind_skip_m h n));
+     ("rfind_keep", facts_prefix h (rfind_keep_m h n));
+     ("strip_prefix", facts_suffix h (strip_prefix_m h n));
+     ("strip_suffix", facts_prefix h (strip_suffix_m h n));
+     ("trim_start_matches", facts_suffix h (Some ts));
+     ("trim_end_matches", facts_prefix h (Some (unwrap_trim (trim_end_matches_m h n) h)));
+     ("trim_matches", facts_at h (zlen h - zlen ts) (unwrap_trim (trim_end_matches_m ts n) ts));
+     ("split_once_a", facts_prefix h (option_map fst (split_once_m h n)));
+     ("split_once_b", facts_suffix h (option_map snd (split_once_m h n)));
+     ("rsplit_once_a", facts_prefix h (option_map fst (rsplit_once_m h n)));
+     ("rsplit_once_b", facts_suffix h (option_map snd (rsplit_once_m h n)))].
+
+Definition c01_ws (h : list Z) : string :=
+  let te := bytes_trim_end_m h in
+  show_fields
+    [("trim", facts_at h (zlen te - zlen (bytes_trim_start_m te)) (bytes_trim_start_m te));
+     ("trim_start", facts_suffix h (Some (bytes_trim_start_m h)));
+     ("trim_end", facts_prefix h (Some te))].
+
+Definition parser_fact (orig : list Z) (r : pres) : string :=
+  match r with
+  | POk _ q =>
+      let s := p_start q in
+      let e := end_offset q in
+      let ok := (s <=? e)%Z && (e <=? zlen orig)%Z && is_char_boundary_m orig s && is_char_boundary_m orig e in
+      facts_at orig s (p_str q) ++ "|" ++ show_bool ok
+  | PErr _ => "err"
+  | PPanic => "PANIC"
+  end.
+
+Definition c01_run (fam : string) (args : list val) : option string :=
+  if String.eqb fam "c01.str" then
+    match args with [h; n] => Some (c01_pat (as_bytes h) (as_bytes n)) | _ => None end
+  else if String.eqb fam "c01.strchar" then
+    match args with [h; c] => Some (c01_pat (as_bytes h) (encode_m (as_Z c))) | _ => None end
+  else if String.eqb fam "c01.ws" then
+    match args with [h] => Some (c01_ws (as_bytes h)) | _ => None end
+  else if String.eqb fam "c01.parser" then
+    match args with
+    | [orig; ops] =>
+        match ops_of (as_list ops) with
+        | Some os => let o := as_bytes orig in Some (show_list (parser_fact o) (run_ops (parser_new o) os))
+        | None => Some "!ops"
+        end
+    | _ => None
+    end
+  else None.
